@@ -2,6 +2,7 @@ package main
 
 import (
 	"fmt"
+	"math/big"
 	"runtime"
 	"strings"
 	"sync"
@@ -27,15 +28,16 @@ func (i *item) ScheduledTime() time.Time { return i.at }
 // Ev is one observed event (in the order of the global log; events raised under p.lock or the
 // clock mutex are exactly ordered among themselves).
 type Ev struct {
-	Kind  string `json:"k"` // enq deq adv newtimer peeked popped stale exec ret closecall closeret park unpark quiet
-	ID    int    `json:"id,omitempty"`
-	Key   int    `json:"key,omitempty"`
-	At    int64  `json:"at,omitempty"`  // scheduled time, ns from base
-	Now   int64  `json:"now,omitempty"` // clock value, ns from base
-	First bool   `json:"first,omitempty"`
-	Out   string `json:"out,omitempty"` // spawn | reset | none  (what process() did)
-	P     string `json:"p,omitempty"`   // hook point of a park
-	None  bool   `json:"none,omitempty"`
+	Kind  string    `json:"k"` // enq deq adv newtimer peeked popped stale exec ret closecall closeret park unpark quiet
+	ID    int       `json:"id,omitempty"`
+	Key   int       `json:"key,omitempty"`
+	At    int64     `json:"at,omitempty"`  // newtimer: duration in ns
+	AtT   time.Time `json:"-"`             // scheduled time of an item (any time.Time, also far outside the int64-ns range)
+	Now   int64     `json:"now,omitempty"` // clock value, ns from base
+	First bool      `json:"first,omitempty"`
+	Out   string    `json:"out,omitempty"` // spawn | reset | none  (what process() did)
+	P     string    `json:"p,omitempty"`   // hook point of a park
+	None  bool      `json:"none,omitempty"`
 }
 
 func (e Ev) Line() string {
@@ -47,7 +49,7 @@ func (e Ev) Line() string {
 	}
 	switch e.Kind {
 	case "enq":
-		return fmt.Sprintf("enq key=%d at=%d id=%d first=%d out=%s", e.Key, e.At, e.ID, b(e.First), e.Out)
+		return fmt.Sprintf("enq key=%d at=%s id=%d first=%d out=%s", e.Key, bigNs(baseTime, e.AtT), e.ID, b(e.First), e.Out)
 	case "deq":
 		return fmt.Sprintf("deq key=%d first=%d out=%s", e.Key, b(e.First), e.Out)
 	case "adv":
@@ -62,7 +64,7 @@ func (e Ev) Line() string {
 	case "popped", "stale", "ret":
 		return fmt.Sprintf("%s id=%d", e.Kind, e.ID)
 	case "exec":
-		return fmt.Sprintf("exec id=%d key=%d at=%d now=%d", e.ID, e.Key, e.At, e.Now)
+		return fmt.Sprintf("exec id=%d key=%d at=%s now=%d", e.ID, e.Key, bigNs(baseTime, e.AtT), e.Now)
 	case "park":
 		if e.None {
 			return fmt.Sprintf("park p=%s none=1", e.P)
@@ -120,8 +122,32 @@ type World struct {
 
 func ns(base, t time.Time) int64 { return t.Sub(base).Nanoseconds() }
 
+// baseTime is the clock origin of every World (model time 0).
+var baseTime = time.Unix(1700000000, 0).UTC()
+
+// fromBigNs is the inverse of bigNs.
+func fromBigNs(base time.Time, s string) (time.Time, bool) {
+	d, ok := new(big.Int).SetString(s, 10)
+	if !ok {
+		return time.Time{}, false
+	}
+	d.Add(d, big.NewInt(int64(base.Nanosecond())))
+	sec, nsec := new(big.Int).DivMod(d, big.NewInt(1000000000), new(big.Int))
+	if !sec.IsInt64() {
+		return time.Time{}, false
+	}
+	return time.Unix(base.Unix()+sec.Int64(), nsec.Int64()).UTC(), true
+}
+
+// bigNs is t - base in nanoseconds as an unbounded decimal (Time.Sub saturates at ±292 years).
+func bigNs(base, t time.Time) string {
+	d := new(big.Int).Mul(big.NewInt(t.Unix()-base.Unix()), big.NewInt(1000000000))
+	d.Add(d, big.NewInt(int64(t.Nanosecond()-base.Nanosecond())))
+	return d.String()
+}
+
 func NewWorld() *World {
-	base := time.Unix(1700000000, 0).UTC()
+	base := baseTime
 	w := &World{base: base, clk: NewVClock(base), live: map[int]*item{}, lastProc: "none", hookHits: map[string]int{}}
 	w.lastLoopHook.Store("")
 	w.beforeLast.Store("")
@@ -143,7 +169,7 @@ func (w *World) add(e Ev) {
 func (w *World) callback(r *item) {
 	w.inCb.Add(1)
 	w.clk.WithLock(func(now time.Time) {
-		w.add(Ev{Kind: "exec", ID: r.id, Key: r.key, At: ns(w.base, r.at), Now: ns(w.base, now)})
+		w.add(Ev{Kind: "exec", ID: r.id, Key: r.key, AtT: r.at, Now: ns(w.base, now)})
 	})
 	w.setLoopHook("cb")
 	w.maybePark("cb", []any{r})
@@ -252,7 +278,7 @@ func (w *World) hook(name string, args ...any) {
 		r := args[0].(*item)
 		r.id = w.nextID
 		w.nextID++
-		w.add(Ev{Kind: "enq", Key: r.key, At: ns(w.base, r.at), ID: r.id, First: args[1].(bool), Out: w.lastProc})
+		w.add(Ev{Kind: "enq", Key: r.key, AtT: r.at, ID: r.id, First: args[1].(bool), Out: w.lastProc})
 		w.lastProc = "none"
 		w.inBody.Store(false)
 	case "queue.dequeue.locked":
